@@ -78,7 +78,7 @@ def write(data, fh, label=None, shot=None, time=None):
 
     # I have no idea what idum is, here it is set to 3
     idum = 3
-    header = "{0:11s}{1:10s}   {2:>8s}{3:16s}{4:4d}{5:4d}{6:4d}\n".format(
+    header = "{0:11s}{1:10s}   {2:>8s}{3:16s}{4:4d} {5:3d} {6:3d}\n".format(
         label, creation_date, shot, time, idum, nx, ny
     )
 
@@ -152,7 +152,7 @@ def write(data, fh, label=None, shot=None, time=None):
         nlim = len(data["rlim"])
 
     co.newline()
-    fh.write("{0:5d}{1:5d}\n".format(nbdry, nlim))
+    fh.write("{0:5d} {1:4d}\n".format(nbdry, nlim))
 
     if nbdry > 0:
         for r, z in zip(data["rbdry"], data["zbdry"]):
